@@ -24,22 +24,15 @@
 (* B-tree/BM25 flushes are atomic snapshot commits here; that abstraction  *)
 (* is discharged by Manifest.tla (C10/C11).                                *)
 (***************************************************************************)
-EXTENDS Naturals, Integers, FiniteSets, Sequences, FiniteSetsExt
+EXTENDS IndexSem
 
 CONSTANTS
-  MaxId,      \* ids are 1..MaxId
-  Val,        \* abstract document values (a set of positive integers)
-  Index,      \* set of index names
-  Kind,       \* [Index -> {"btu","bt","bm","hn"}]
-  Terms,      \* [Index -> [Val -> SUBSET Nat]]  keys / tokens derived from a value ({} = null / no text)
   Removable,  \* set of index names the open callback removes (remove_*_index) after creating the wanted ones
   InitIdx,    \* indexes registered (and flushed, empty) when the behaviour starts
   Wanted,     \* sequence of index names the open callback creates if missing (create_*_index_nx)
   Stride,     \* allocation watermark stride (64 in the code)
   FlushOnCreate \* TRUE: create_*_index persists the backfilled index before it is registered
 
-Id == 1..MaxId
-NoDoc == 0
 
 VARIABLES
   \* ---- durable (object store) ----
@@ -68,57 +61,6 @@ control  == <<pc, cur, nextSeq>>
 vars     == <<durable, volatile, control, ackedIds>>
 
 NoCur == [op |-> "none"]
-EmptyIdx == [h |-> {}, p |-> {}]
-Max2(a, b) == IF a >= b THEN a ELSE b
-MaxOf(S) == IF S = {} THEN 0 ELSE Max(S)
-
----------------------------------------------------------------------------
-(* Index semantics (rs/anda_db_btree insert/remove, rs/anda_db_tfs         *)
-(* insert/remove, rs/anda_db_hnsw insert/remove), at set level.            *)
-
-PairsOf(id, ts) == {<<id, t>> : t \in ts}
-
-\* can `id` insert terms ts into index i with content x ?
-CanInsert(i, x, id, ts) ==
-  CASE Kind[i] = "btu" -> \A t \in ts : \A q \in x.p : q[2] = t => q[1] = id
-    [] Kind[i] = "bt"  -> TRUE
-    [] Kind[i] = "bm"  -> id \notin x.h /\ ts # {}       \* AlreadyExists / TokenizeFailed
-    [] Kind[i] = "hn"  -> id \notin x.h
-
-Ins(i, x, id, ts) ==
-  CASE Kind[i] \in {"btu", "bt"} -> [x EXCEPT !.p = @ \cup PairsOf(id, ts)]
-    [] Kind[i] = "bm" -> [h |-> x.h \cup {id}, p |-> x.p \cup PairsOf(id, ts)]
-    [] Kind[i] = "hn" -> [x EXCEPT !.h = @ \cup {id}]
-
-Rem(i, x, id, ts) ==
-  CASE Kind[i] \in {"btu", "bt"} -> [x EXCEPT !.p = @ \ PairsOf(id, ts)]
-    [] Kind[i] = "bm" -> [h |-> x.h \ {id}, p |-> x.p \ PairsOf(id, ts)]
-    [] Kind[i] = "hn" -> [x EXCEPT !.h = @ \ {id}]
-
-\* does a document value take part in index i at all?  (null key / no text / no vector: skipped)
-Indexed(i, v) == IF Kind[i] = "hn" THEN TRUE ELSE Terms[i][v] # {}
-
-\* best-effort insert used by recovery (errors are logged, not propagated)
-TryIns(i, x, id, v) ==
-  IF Indexed(i, v) /\ CanInsert(i, x, id, Terms[i][v]) THEN Ins(i, x, id, Terms[i][v]) ELSE x
-
-\* value-keyed removal used by recovery and remove (null values are skipped; HNSW removes by id)
-RemVal(i, x, id, v) ==
-  IF Kind[i] = "hn" THEN Rem(i, x, id, {})
-  ELSE IF Indexed(i, v) THEN Rem(i, x, id, Terms[i][v]) ELSE x
-
-\* what a query can observe of an index
-Obs(i, x) ==
-  CASE Kind[i] \in {"btu", "bt"} -> x.p
-    [] Kind[i] = "bm" -> {q \in x.p : q[1] \in x.h}
-    [] Kind[i] = "hn" -> {<<id, 0>> : id \in x.h}
-
-\* what index i must answer for a document map
-Derive(i, docs) ==
-  IF Kind[i] = "hn" THEN {<<id, 0>> : id \in {d \in Id : docs[d] # NoDoc}}
-  ELSE UNION {PairsOf(id, Terms[i][docs[id]]) : id \in {d \in Id : docs[d] # NoDoc}}
-
-LiveIds(docs) == {id \in Id : docs[id] # NoDoc}
 
 ---------------------------------------------------------------------------
 Init ==
